@@ -946,6 +946,18 @@ def i_XCHG(i, fmap):
     fmap[op1] = tmp2
 
 
+def _shift_flags(fmap, count, res):
+    "SF/ZF/PF of a shift result; a count that turns out to be 0 leaves them unchanged"
+    s, z, p = res.bit(-1), res == 0, parity8(res[0:8])
+    if not count._is_cst:
+        s = tst(count == 0, fmap(sf), s)
+        z = tst(count == 0, fmap(zf), z)
+        p = tst(count == 0, fmap(pf), p)
+    fmap[sf] = s
+    fmap[zf] = z
+    fmap[pf] = p
+
+
 def i_SHR(i, fmap):
     fmap[rip] = fmap[rip] + i.length
     REX = i.misc["REX"]
@@ -972,9 +984,7 @@ def i_SHR(i, fmap):
         fmap[cf] = top(1)
         fmap[of] = top(1)
     res = a >> count
-    fmap[sf] = res.bit(-1)
-    fmap[zf] = res == 0
-    fmap[pf] = parity8(res[0:8])
+    _shift_flags(fmap, count, res)
     op1, res = _r32_zx64(op1, res)
     fmap[op1] = res
 
@@ -1005,9 +1015,7 @@ def i_SAR(i, fmap):
         fmap[cf] = top(1)
         fmap[of] = top(1)
     res = a // count  # (// is used as arithmetic shift in cas.py)
-    fmap[sf] = res.bit(-1)
-    fmap[zf] = res == 0
-    fmap[pf] = parity8(res[0:8])
+    _shift_flags(fmap, count, res)
     op1, res = _r32_zx64(op1, res)
     fmap[op1] = res
 
@@ -1038,9 +1046,7 @@ def i_SHL(i, fmap):
     else:
         fmap[cf] = top(1)
         fmap[of] = top(1)
-    fmap[sf] = x.bit(-1)
-    fmap[zf] = x == 0
-    fmap[pf] = parity8(x[0:8])
+    _shift_flags(fmap, count, x)
     op1, x = _r32_zx64(op1, x)
     fmap[op1] = x
 
